@@ -297,6 +297,7 @@ fn c01_alphabet(tier: Tier) -> Alphabet {
         (Blob::NonTx, true),
         (Blob::Bad, true),
         (Blob::Alt, true),
+        (Blob::TxPlusTrailing, true),
     ];
     if tier == Tier::Thorough {
         a.blobs.push((Blob::Large, true));
